@@ -577,10 +577,13 @@ class SwitchController(MpfController):
         # registered.
         if ms:  # only do this for handlers that have delays
             current_time = self.machine.clock.get_time()
-            if switch.last_change > current_time - (ms / 1000.0) and state == switch.state:
-                # figure out when this handler should fire based on the
-                # switch's original activation time.
-                key = switch.last_change + (ms / 1000.0)
+            # figure out when this handler should fire based on the
+            # switch's original activation time.
+            key = switch.last_change + (ms / 1000.0)
+            # (compare the deadline itself: "last_change > current_time - ms" can be true through rounding while the
+            # deadline is not ahead any more, and a handler registered by a callback at its own deadline would then
+            # fire at once, over and over)
+            if key > current_time and state == switch.state:
                 value = TimedSwitchHandler(callback=callback,
                                            state=state,
                                            ms=ms)
